@@ -51,6 +51,15 @@ FEATURES = {
     "chained_compare": ["print('cc§', a < b < 10, a == b != 3, a in [b])"],
     "ternary_boolop": ["tb§ = (a if a > b else b) or (a and b)", "print('tb§', tb§)"],
     "pass_expr": ["pass", "a + b", "print('pe§')"],
+    # expression kinds with a placement restriction that the lowering moves into comprehension
+    # iterables / lambda bodies / f-string fields: conversion must still succeed (since c5f2ce3 an
+    # invalid result is turned into an error, i.e. into a refused supported script)
+    "walrus_in_lambda_in_for_iter": ["for wl§ in map(lambda v: (wt§ := v * 2) + wt§, [a, b]):", "    print('wl§', wl§)"],
+    "walrus_in_for_iter": ["for wf§ in (wr§ := [a, b]):", "    print('wf§', wf§, wr§)"],
+    # (concrete values inside the fields: CrossHair cannot format symbolic ints with specs)
+    "fstring_brace_start_fields": ["fb§ = f'{ {1: 7}[1] }|{ {7} | {8} }|{ {k: k for k in [7]}.get(7)!r}|{(lambda: 7)()}|{7 if 0 else (lambda: 1)()}'", "print('fb§', fb§, a)"],
+    "fstring_quotes_in_spec": ["fq§ = f\"{7:'>5}|{8:\\\"<4}\"", "print('fq§', fq§, b)"],
+    "lambda_ifexp_in_comp_filter": ["lf§ = [v for v in [a, b] if (lambda w: w if w else 1)(v)]", "print('lf§', lf§)"],
 }
 
 
